@@ -102,6 +102,9 @@ class MultiMomentGaugeTransformer(abc.ABC):
                     has_target_gates = True
                 elif op not in self.supported_gates:
                     return False
+            else:
+                # Operations without a gate are not re-emitted by the gauge: not a target moment.
+                return False
         return has_target_gates
 
     def __call__(
